@@ -58,3 +58,7 @@ impl KempstonMouse {
         self.y_pos_port = ((self.y_pos_port as i16) - y as i16) as u8;
     }
 }
+
+#[cfg(kani)]
+#[path = "/verif/hooks/core/kempston_mouse.rs"]
+mod verif_hooks;
